@@ -51,7 +51,27 @@ GUIDANCE5 = """Earlier rounds have used up the attractive, obvious bugs for this
 {assigned}
 
 Within a family, avoid the first idea that comes to mind (it has probably been tried): look for a place in the code where the family applies that is at least two call levels away from the obvious one, or that only matters for an unusual but legal input. The change must read like a refactor, clean-up or small optimisation that a reviewer would wave through, must leave the build and the existing suite green, and must need a specific input, configuration, sequence or interleaving to show. The source files most relevant to this property are: {anchors} (the bug itself may live elsewhere, e.g. in a helper those files call)."""
+GUIDANCE7 = """Six earlier rounds have used up single-site bugs for this property. This round asks for two different kinds, one bug of each; say in README.md which is which.
+
+Bug 1 - from an assigned mechanism family. Craft it from the ONE of these four families that fits this property and this code base best, at a place at least two call levels away from the obvious one:
+
+{assigned}
+
+Bug 2 - an *interaction* bug: the change is harmless for every feature, entry, file or run taken alone and shows only when two of them meet. Pick one row:
+  - two interfaces / packages / `configs` entries / output files in ONE run, where the result for the later one depends on what was processed before it (state carried across loop iterations, a shared registry, template object, map or buffer);
+  - a second invocation on the tree that a first invocation (possibly of an older configuration) left behind: outputs that exist, are longer, shorter, read-only, symlinks, or belong to another package;
+  - the environment: working directory different from the config directory, config found by search vs given by flag, MOCKERY_* environment variables vs file vs flags, symlinked directories, nested modules, go.work, build tags;
+  - an option *explicitly set to its default* (false, "", [], {{}}) at one level while another level sets it to something else, versus the option being absent;
+  - sizes: zero, one, many (no methods, no parameters, nine or more parameters, many interfaces in one file, very long or very short names, deep package nesting);
+  - a language feature combined with another (generic + variadic, generic + embedded, constraint + alias, type parameter named like a package or a local, replace-type + generic, unnamed + blank parameters);
+  - for generated mocks: a *sequence* of uses (call, reset, call; an expectation set twice; Once/Times/Maybe/Unset followed by more calls; sequential use after concurrent use; a mock shared by two tests).
+
+Both bugs must read like a refactor, clean-up or small optimisation that a reviewer would wave through, must leave the build and the existing suite green, and must need a specific input, configuration, sequence or interleaving to show. The source files most relevant to this property are: {anchors} (the bug itself may live elsewhere, e.g. in a helper those files call)."""
 suffix = sys.argv[1]
+if suffix.startswith("7"):
+    a = T.index("## Additional guidance for this round")
+    b = T.index("## Environment facts")
+    T = T[:a] + "## Additional guidance for this round\n\n{guidance5}\n\n" + T[b:]
 if suffix.startswith("5") or suffix.startswith("6"):
     a = T.index("## Additional guidance for this round")
     b = T.index("## Environment facts")
@@ -69,6 +89,10 @@ for pid in (sys.argv[2:] or sorted(props)):
         if suffix.startswith("6"):   # the families not offered to this property in round 5
             fam = [(k * 7 + 3) % 20, (k * 7 + 8) % 20, (k * 7 + 13) % 20, (k * 7 + 18) % 20]
         extra["guidance5"] = GUIDANCE5.format(assigned="\n".join("  - " + MENU[f] for f in fam), anchors=', '.join(p['anchors']['files']))
+    if suffix.startswith("7"):   # four families not offered to this property in rounds 5 and 6
+        k = int(pid[1:])
+        fam = [(k * 7 + 1) % 20, (k * 7 + 6) % 20, (k * 7 + 12) % 20, (k * 7 + 17) % 20]
+        extra["guidance5"] = GUIDANCE7.format(assigned="\n".join("  - " + MENU[f] for f in fam), anchors=', '.join(p['anchors']['files']))
     open('/tmp/mut%s_prompt_%s.txt' % (suffix, pid), 'w').write(T.format(**extra, 
         n=2, wt='/tmp/wt%s/%s' % (suffix, pid), out='/tmp/mut%s' % suffix, pid=pid, title=p['title'], statement=p['statement'],
         quant=p['quantifier']['text'], anchors=', '.join(p['anchors']['files'])))
